@@ -213,7 +213,7 @@ def hv_hangsafe(binary, args, runs, timeout=1800):
         raise ToolError("harness %s failed (%d):\n%s" % (" ".join(args[:2]), rc, out[-3000:]))
 
 
-def hv_resumable(binary, args, runs, timeout=900):
+def hv_resumable(binary, args, runs, timeout=900, max_restarts=None):
     """Full-stack drivers die with the process when the code under test panics (run_internet installs a hook
     that exits): the panic is recorded in the trace, and the driver is restarted after the crashed run."""
     out_path = args[args.index("--out") + 1]
@@ -252,8 +252,9 @@ def hv_resumable(binary, args, runs, timeout=900):
         # there is to see; the scenarios executed are validated, the rest is skipped
         if restarts >= 100 and restarts * 10 >= start * 9:
             return {"runs": start, "restarts": restarts, "cut_short": True}
-        # (the same after sixty crashes among many scenarios: every one of them is in the trace and will be judged)
-        if restarts >= 60:
+        # (a caller whose scenarios never crash on the unchanged tree may say how many crashes are evidence enough: every
+        # one of them is in the trace and will be judged)
+        if max_restarts is not None and restarts >= max_restarts:
             return {"runs": start, "restarts": restarts, "cut_short": True}
 
 
